@@ -199,7 +199,9 @@ def pipe_blocked_state(pid):
     if sc is None:
         return None
     nr, args = sc
-    if nr == 7:
+    if nr in (7, 219):
+        # (219 = restart_syscall: a poll() that was interrupted by a stop and continued; the registers
+        # still hold poll's arguments, and poll_blocked_state() validates that they describe pipes)
         return poll_blocked_state(pid, args)
     if nr not in (0, 1):
         return None
